@@ -14,9 +14,9 @@ func init() {
 	streams["COUNTER"] = streamCounter
 	streamRules["COUNTER"] = "exhaustive single transitions of CompactShareCounter from all 952 abstract states (total bytes 0..951) x data lengths 0..1500 (add, then revert), block digests; plus random add/revert histories; oracle: counter size/increment/remainder == a CompactShareSplitter fed the effective transactions; non-trivial = distinct (state,length-block) or history"
 	streams["COMPACT"] = streamCompact
-	streamRules["COMPACT"] = "tx lists with lengths drawn around the 474/478 fills and 1/2/3-byte varint widths, both compact namespaces; real writer vs model vs independent Spec.compactSeq; ParseTxs on the whole sequence and on ALL sub-ranges; splitter share ranges; oracles for C09/C11/C12; non-trivial = distinct length list with >= 2 shares"
+	streamRules["COMPACT"] = "tx lists with lengths drawn around the 474/478 fills and 1/2/3-byte varint widths, both compact namespaces; real writer vs model vs independent Spec.compactSeq; ParseTxs on the whole sequence and on ALL sub-ranges; splitter share ranges; oracles for C09/C11/C12; non-trivial = distinct length list with >= 2 shares Added: directed in-share unit-start offsets (34..39, 255..258, 509..511), structured payloads, view-backed namespaces, parsing each recorded range, idempotent ShareRanges."
 	streams["CHIST"] = streamCHist
-	streamRules["CHIST"] = "CompactShareSplitter histories over {write, export, count}; oracle: final export == export of a fresh splitter fed only the writes; non-trivial = distinct history with an export between two writes"
+	streamRules["CHIST"] = "CompactShareSplitter histories over {write, export, count}; oracle: final export == export of a fresh splitter fed only the writes; non-trivial = distinct history with an export between two writes Added: per-transaction ranges and the C09 round trip after every history, two splitters sharing one namespace value, nil vs empty inputs."
 }
 
 func counterGoto(T int) *share.CompactShareCounter {
